@@ -208,6 +208,91 @@ Theorem C17_result_depends_on_current_samples_only :
 Proof. exact result_depends_on_current_samples_only. Qed.
 Print Assumptions C17_result_depends_on_current_samples_only.
 
+(* ================= lentil.rescale with all its arguments (shape, mask, unitary) ================= *)
+
+(* output shape for the three forms of [shape] (None: the image's shape; scalar a: (a, a); pair), each times the scale and
+   rounded up; the call never refuses a float mask; an explicit mask of integer/bool dtype is refused with ValueError
+   (finding C17-explicit-int-mask: the code is modelled as it is); at default arguments it is the function Plane.rescale uses *)
+Theorem C17_rescale_general_shape_and_refusal :
+  forall (o : interp) (img : qarr) (s : Qc) (sh : shapearg) (pm : option (qarr * Qc)) (u : bool),
+  rescale_gen o img s sh pm true u = Err ValueError /\
+  (forall r, rescale_gen o img s sh pm false u = Ok r ->
+     match sh with
+     | ShNone => onr r = rescale_shape (qnr img) s /\ onc r = rescale_shape (qnc img) s
+     | ShScalar a => onr r = rescale_shape a s /\ onc r = rescale_shape a s
+     | ShPair a b => onr r = rescale_shape a s /\ onc r = rescale_shape b s
+     end) /\
+  (exists r, rescale_gen o img s sh pm false u = Ok r) /\
+  rescale_gen o img s ShNone None false false = util_rescale o img s.
+Proof. exact general_shape_and_refusal. Qed.
+Print Assumptions C17_rescale_general_shape_and_refusal.
+Example C17_rescale_general_shape_and_refusal_nonvacuous :
+  (exists r, rescale_gen Cubic ex_img (zq 3 / zq 2) (ShScalar 5) None false false = Ok r /\ onr r = 8%Z /\ onc r = 8%Z) /\
+  (exists r, rescale_gen Nearest0 ex_img (zq 3 / zq 2) (ShPair 2 5) None false false = Ok r /\ onr r = 3%Z /\ onc r = 8%Z) /\
+  rescale_gen Cubic ex_img (zq 2) ShNone None true false = Err ValueError.
+Proof. exact ex_general_shape. Qed.
+
+(* explicit mask (same shape as the image), not unitary: whatever [shape] is, the sampling grid is centred on the IMAGE
+   (coord (qnr img) ...); at a node (y, x) the sample is img[y,x] times the mask value, the latter replaced by 0 when it is
+   below eps (also every negative value); where the four mask samples around a non-node coordinate vanish the sample is 0 *)
+Theorem C17_rescale_explicit_mask_spec :
+  forall (o : interp) (img : qarr) (s : Qc) (sh : shapearg) (mk : qarr) (eps : Qc) (r : oarr),
+  rescale_gen o img s sh (Some (mk, eps)) false false = Ok r ->
+  qnr mk = qnr img -> qnc mk = qnc img ->
+  (forall i j y x, coord (qnr img) (onr r) s i = zq y -> (0 <= y < qnr img)%Z ->
+                   coord (qnc img) (onc r) s j = zq x -> (0 <= x < qnc img)%Z ->
+     oget r i j = Known (qget img y x * (if qlt (qget mk y x) eps then Q2Qc 0 else qget mk y x))) /\
+  (forall i j, zero_cluster mk (coord (qnr img) (onr r) s i) (coord (qnc img) (onc r) s j) = true ->
+     node (qnr img) (coord (qnr img) (onr r) s i) = None \/ node (qnc img) (coord (qnc img) (onc r) s j) = None ->
+     oget r i j = Known (Q2Qc 0)).
+Proof. exact explicit_mask_spec. Qed.
+Print Assumptions C17_rescale_explicit_mask_spec.
+Example C17_rescale_explicit_mask_spec_nonvacuous :
+  exists r, rescale_gen Cubic ex_img (zq 2) ShNone (Some (ex_mask, Q2Qc (1 # 1000))) false false = Ok r /\
+    oget r 2 2 = Known (zq 12) /\ oget r 0 2 = Known (Q2Qc 0) /\ oget r 2 0 = Known (Q2Qc 0) /\ oget r 3 3 = Unknown.
+Proof. exact ex_explicit_mask. Qed.
+
+(* unitary = True: the factor sum(img)/sum(out) is applied to the interpolant BEFORE the post-mask.  When every sample of
+   the interpolant is pinned and their total is not 0 the factor f is pinned: the renormalised interpolant has exactly the
+   total of the image, every output sample is the non-unitary sample times f (all 0 when f = 0); otherwise (0/0, x/0, or an
+   unpinned interpolant) nothing is pinned *)
+Theorem C17_rescale_unitary :
+  forall (o : interp) (img : qarr) (s : Qc) (sh : shapearg) (pm : option (qarr * Qc)) (r : oarr),
+  rescale_gen o img s sh pm false true = Ok r ->
+  let N := onr r in let M := onc r in
+  let pre := fun i j => pre_sample o img (coord (qnr img) N s i) (coord (qnc img) M s j) in
+  match unitary_factor img N M pre with
+  | Some f =>
+      qsum2 N M (fun i j => val0 (pre i j) * f) = qsum2 (qnr img) (qnc img) (qget img) /\
+      (nz f = true -> forall i j, oget r i j = smap (fun v => v * f) (sample_gen o img pm (coord (qnr img) N s i) (coord (qnc img) M s j))) /\
+      (nz f = false -> forall i j, oget r i j = Known (Q2Qc 0))
+  | None => forall i j, oget r i j = Unknown
+  end.
+Proof. exact unitary_result. Qed.
+Print Assumptions C17_rescale_unitary.
+Example C17_rescale_unitary_nonvacuous :
+  exists r, rescale_gen Cubic ex_img (zq 3 / zq 2) ShNone None false true = Ok r /\ oget r 0 0 = Unknown.
+Proof. exact ex_unitary_poisoned. Qed.
+
+(* the detector.pixelate configuration: cubic, s = 1/k with k dividing both sizes, default mask, unitary: every output
+   sample is the input sample k i, k j times sum(img) / (sum of the retained samples), and the output total is sum(img) *)
+Theorem C17_rescale_unit_fraction_unitary :
+  forall (img : qarr) (k N M : Z) (r : oarr), (0 < k)%Z -> qnr img = (k * N)%Z -> qnc img = (k * M)%Z ->
+  let t := qsum2 N M (fun i j => qget img (k * i) (k * j)) in
+  t <> 0 ->
+  rescale_gen Cubic img (/ zq k) ShNone None false true = Ok r ->
+  onr r = N /\ onc r = M /\
+  (forall i j, (0 <= i < N)%Z -> (0 <= j < M)%Z ->
+     oget r i j = Known (qget img (k * i) (k * j) * (qsum2 (qnr img) (qnc img) (qget img) / t))) /\
+  qsum2 N M (fun i j => qget img (k * i) (k * j) * (qsum2 (qnr img) (qnc img) (qget img) / t))
+    = qsum2 (qnr img) (qnc img) (qget img).
+Proof. exact unit_fraction_unitary. Qed.
+Print Assumptions C17_rescale_unit_fraction_unitary.
+Example C17_rescale_unit_fraction_unitary_nonvacuous :
+  exists r, rescale_gen Cubic ex_img (/ zq 2) ShNone None false true = Ok r /\ onr r = 2%Z /\ onc r = 2%Z /\
+    oget r 0 0 = Known (zq 1 * (zq 136 / zq 24)) /\ oget r 1 1 = Known (zq 11 * (zq 136 / zq 24)).
+Proof. exact ex_unit_fraction_unitary. Qed.
+
 (* non-vacuity: a 2 x 4 float amplitude that is also the mask, scalar opd, s = 3/2: the call succeeds with
    shapes 3 x 6 and pixel scale 2/3; rows 0 and columns 0, 3 are nodes (y_0 = 0, x_0 = 0, x_3 = 2), so
    amplitude'[0,0] = a[0,0]/s, amplitude'[0,3] = a[0,2]/s; sample (1,1) is not pinned; the mask is *)
